@@ -7,6 +7,7 @@ use std::collections::{BTreeMap, BTreeSet};
 use std::io::Read;
 use std::path::PathBuf;
 use std::process::{Command, Stdio};
+use std::sync::atomic::{AtomicU64, Ordering};
 use std::time::{Duration, Instant};
 
 #[derive(Clone, Copy, Debug, PartialEq, Eq)]
@@ -64,17 +65,43 @@ pub struct Ctx {
     pub seed: u64,
     pub out: Out,
     counter: u64,
+    case_no: u64,
+    stop_at: Option<u64>,
     pub started: Instant,
 }
 
+/// progress heartbeat watched by the stall watchdog of a worker
+static PROGRESS: AtomicU64 = AtomicU64::new(0);
+/// number of the case (per worker, in enumeration order) being executed
+static CASE_NO: AtomicU64 = AtomicU64::new(0);
+
 impl Ctx {
     pub fn new(tier: Tier, shard: u64, nshards: u64, seed: u64) -> Self {
-        Ctx { tier, shard, nshards, seed, out: Out::default(), counter: 0, started: Instant::now() }
+        let stop_at = std::env::var("VERIF_STOP_AT").ok().and_then(|s| s.parse().ok());
+        Ctx { tier, shard, nshards, seed, out: Out::default(), counter: 0, case_no: 0, stop_at, started: Instant::now() }
+    }
+    /// Marks the start of one executed case. The description is only built when this worker
+    /// was asked (after a stall) to name the case with this number.
+    #[inline]
+    pub fn begin(&mut self, describe: impl FnOnce() -> Value) {
+        self.case_no += 1;
+        CASE_NO.store(self.case_no, Ordering::Relaxed);
+        PROGRESS.fetch_add(1, Ordering::Relaxed);
+        if self.stop_at == Some(self.case_no) {
+            use std::io::Write;
+            println!("HANGCASE {}", describe());
+            let _ = std::io::stdout().flush();
+        }
+    }
+    #[inline]
+    pub fn tick(&self) {
+        PROGRESS.fetch_add(1, Ordering::Relaxed);
     }
     /// Round-robin ownership of enumerated cases: call once per case of the (deterministic)
     /// enumeration; true iff this worker executes it.
     #[inline]
     pub fn mine(&mut self) -> bool {
+        PROGRESS.fetch_add(1, Ordering::Relaxed);
         let c = self.counter;
         self.counter += 1;
         c % self.nshards == self.shard
@@ -207,8 +234,47 @@ fn parse_tier(s: &str) -> Tier {
     }
 }
 
+fn stall_limit(tier: Tier) -> u64 {
+    std::env::var("VERIF_STALL_S").ok().and_then(|s| s.parse().ok()).unwrap_or(tier.pick(30, 120))
+}
+
+fn limit_memory() {
+    // an exploding subject must fail by allocation error inside its own process, not by the
+    // kernel's OOM killer taking the sandbox down
+    let gib: u64 = std::env::var("VERIF_WORKER_MEM_GIB").ok().and_then(|s| s.parse().ok()).unwrap_or(3);
+    let lim = libc::rlimit { rlim_cur: gib << 30, rlim_max: gib << 30 };
+    unsafe {
+        libc::setrlimit(libc::RLIMIT_AS, &lim);
+    }
+}
+
+fn spawn_watchdog(limit_s: u64, on_stall: impl Fn(u64) + Send + 'static) {
+    std::thread::spawn(move || {
+        let mut last = PROGRESS.load(Ordering::Relaxed);
+        let mut since = Instant::now();
+        loop {
+            std::thread::sleep(Duration::from_millis(250));
+            let now = PROGRESS.load(Ordering::Relaxed);
+            if now != last {
+                last = now;
+                since = Instant::now();
+            } else if since.elapsed().as_secs() >= limit_s {
+                on_stall(CASE_NO.load(Ordering::Relaxed));
+            }
+        }
+    });
+}
+
 fn worker(p: &dyn Property, tier: Tier, shard: u64, n: u64) -> ! {
     crate::lab::silence_panics();
+    limit_memory();
+    let lim = stall_limit(tier);
+    spawn_watchdog(lim, move |case_no| {
+        use std::io::Write;
+        println!("STALL {case_no}");
+        let _ = std::io::stdout().flush();
+        std::process::exit(3);
+    });
     let mut ctx = Ctx::new(tier, shard, n, seed_from_env());
     p.explore(&mut ctx);
     let s = serde_json::to_string(&ctx.out).expect("serialise worker result");
@@ -220,7 +286,16 @@ fn replay(p: &dyn Property, path: &str) -> ! {
     let txt = std::fs::read_to_string(path).unwrap_or_else(|e| machinery(&format!("cannot read {path}: {e}")));
     let v: Value = serde_json::from_str(&txt).unwrap_or_else(|e| machinery(&format!("bad replay file: {e}")));
     let case = v.get("case").cloned().unwrap_or(v.clone());
-    if let Some(sh) = case.get("crashed_shard") {
+    spawn_watchdog(stall_limit(Tier::Quick), {
+        let path = path.to_string();
+        let id = p.id();
+        move |_| {
+            println!("VIOLATION property={id} replay={path}");
+            println!("detail: the subject did not terminate on this case");
+            std::process::exit(1);
+        }
+    });
+    if let Some(sh) = case.get("crashed_shard").or(case.get("stalled_shard")) {
         // re-run the crashed shard in a subprocess
         let tier = case.get("tier").and_then(Value::as_str).unwrap_or("quick").to_string();
         let n = case.get("nshards").and_then(Value::as_u64).unwrap_or(16);
@@ -230,9 +305,9 @@ fn replay(p: &dyn Property, path: &str) -> ! {
             .stderr(Stdio::null())
             .status()
             .unwrap();
-        if st.code().is_none() {
+        if st.code().is_none() || st.code() == Some(3) {
             println!("VIOLATION property={} replay={path}", p.id());
-            println!("detail: worker shard {sh} died from a signal again: {st}");
+            println!("detail: worker shard {sh} died from a signal or stalled again: {st}");
             std::process::exit(1);
         }
         println!("replay: shard {sh} did not crash");
@@ -290,6 +365,7 @@ fn drive(p: &dyn Property, tier: Tier) -> ! {
         }));
     }
     let mut crashed: Vec<(u64, String)> = vec![];
+    let mut stalled: Vec<u64> = vec![];
     let mut failed: Vec<String> = vec![];
     for (s, ch) in &mut children {
         loop {
@@ -297,6 +373,8 @@ fn drive(p: &dyn Property, tier: Tier) -> ! {
                 Ok(Some(st)) => {
                     if st.code().is_none() {
                         crashed.push((*s, format!("{st}")));
+                    } else if st.code() == Some(3) {
+                        stalled.push(*s);
                     } else if !st.success() {
                         failed.push(format!("worker {s} exited with {st}"));
                     }
@@ -319,9 +397,53 @@ fn drive(p: &dyn Property, tier: Tier) -> ! {
         }
     }
     let mut merged = Out::default();
+    let mut stall_viols: Vec<Viol> = vec![];
     for r in readers {
         let (s, buf) = r.join().unwrap();
         if crashed.iter().any(|c| c.0 == s) {
+            continue;
+        }
+        if stalled.contains(&s) {
+            let case_no: u64 = buf.lines().rev().find_map(|l| l.strip_prefix("STALL ")).and_then(|x| x.trim().parse().ok()).unwrap_or(0);
+            let lim = stall_limit(tier);
+            // ask a fresh worker to name that case (it will stall again; it is stopped afterwards)
+            let mut case = json!({"stalled_shard": s, "nshards": nshards, "tier": tier.name(), "case_no": case_no});
+            if case_no > 0 && stall_viols.is_empty() {
+                if let Ok(mut ch) = Command::new(&exe)
+                    .args(["--worker", tier.name(), &s.to_string(), &nshards.to_string()])
+                    .env("VERIF_STOP_AT", case_no.to_string())
+                    .env("VERIF_STALL_S", "5")
+                    .stdin(Stdio::null())
+                    .stdout(Stdio::piped())
+                    .stderr(Stdio::null())
+                    .spawn()
+                {
+                    let mut so = ch.stdout.take().unwrap();
+                    let h = std::thread::spawn(move || {
+                        let mut b = String::new();
+                        let _ = so.read_to_string(&mut b);
+                        b
+                    });
+                    let t1 = Instant::now();
+                    while ch.try_wait().ok().flatten().is_none() && t1.elapsed() < Duration::from_secs(lim + 20) {
+                        std::thread::sleep(Duration::from_millis(50));
+                    }
+                    let _ = ch.kill();
+                    let _ = ch.wait();
+                    if let Ok(b) = h.join() {
+                        if let Some(j) = b.lines().find_map(|l| l.strip_prefix("HANGCASE ")) {
+                            if let Ok(v) = serde_json::from_str::<Value>(j) {
+                                case = v;
+                            }
+                        }
+                    }
+                }
+            }
+            stall_viols.push(Viol {
+                class: "subject-hang".into(),
+                case,
+                detail: format!("the subject did not terminate (no progress for {lim}s) on case #{case_no} of worker {s}/{nshards}"),
+            });
             continue;
         }
         let Some(line) = buf.lines().rev().find(|l| l.starts_with("RESULT ")) else {
@@ -350,6 +472,10 @@ fn drive(p: &dyn Property, tier: Tier) -> ! {
                 detail: format!("worker process running the subject died from a signal: {st}"),
             });
         }
+    }
+    for v in stall_viols {
+        *merged.viol_counts.entry(v.class.clone()).or_insert(0) += 1;
+        merged.viols.push(v);
     }
     p.post(tier, &mut merged);
     let mach: Vec<&String> = merged.capped.iter().filter(|c| c.starts_with("MACHINERY:")).collect();
